@@ -99,13 +99,27 @@ extern "C" fn trampoline(arg: *mut libc::c_void) -> *mut libc::c_void {
     std::ptr::null_mut()
 }
 
-/// Run `f` on a fresh OS thread whose hash keys derive from `seed`. Panics in `f` are returned
-/// as Err(message).
-pub fn on_fresh_thread<T: Send + 'static>(
-    seed: u64,
-    stack_mib: usize,
-    f: impl FnOnce() -> T + Send + 'static,
-) -> Result<T, String> {
+/// Handle of a fresh thread started by [`spawn_fresh`].
+pub struct FreshHandle<T> {
+    tid: libc::pthread_t,
+    stack: (usize, usize),
+    slot: std::sync::Arc<std::sync::Mutex<Option<Result<T, String>>>>,
+}
+
+impl<T> FreshHandle<T> {
+    pub fn join(self) -> Result<T, String> {
+        // SAFETY: tid was returned by a successful pthread_create and is joined exactly once
+        unsafe {
+            libc::pthread_join(self.tid, std::ptr::null_mut());
+        }
+        give_stack(self.stack);
+        let r = self.slot.lock().unwrap_or_else(|e| e.into_inner()).take();
+        r.unwrap_or_else(|| Err("thread ended without a result".to_string()))
+    }
+}
+
+/// Start `f` on a fresh OS thread whose hash keys derive from `seed`.
+pub fn spawn_fresh<T: Send + 'static>(seed: u64, stack_mib: usize, f: impl FnOnce() -> T + Send + 'static) -> Result<FreshHandle<T>, String> {
     let slot: std::sync::Arc<std::sync::Mutex<Option<Result<T, String>>>> = std::sync::Arc::new(std::sync::Mutex::new(None));
     let slot2 = slot.clone();
     let body: Box<dyn FnOnce() + Send> = Box::new(move || {
@@ -119,7 +133,7 @@ pub fn on_fresh_thread<T: Send + 'static>(
     }
     let job = Box::into_raw(Box::new(Job { seed, f: Some(body) }));
     // SAFETY: standard pthread usage; the stack stays alive until after pthread_join
-    let rc = unsafe {
+    let (rc, tid) = unsafe {
         let mut attr: libc::pthread_attr_t = std::mem::zeroed();
         libc::pthread_attr_init(&mut attr);
         // usable area starts above the guard page
@@ -127,19 +141,68 @@ pub fn on_fresh_thread<T: Send + 'static>(
         let mut tid: libc::pthread_t = std::mem::zeroed();
         let rc = libc::pthread_create(&mut tid, &attr, trampoline, job as *mut libc::c_void);
         libc::pthread_attr_destroy(&mut attr);
-        if rc == 0 {
-            libc::pthread_join(tid, std::ptr::null_mut());
-        } else {
+        if rc != 0 {
             drop(Box::from_raw(job));
         }
-        rc
+        (rc, tid)
     };
-    give_stack(st);
     if rc != 0 {
+        give_stack(st);
         return Err(format!("pthread_create failed: {rc}"));
     }
-    let r = slot.lock().unwrap_or_else(|e| e.into_inner()).take();
-    r.unwrap_or_else(|| Err("thread ended without a result".to_string()))
+    Ok(FreshHandle { tid, stack: st, slot })
+}
+
+/// Run `f` on a fresh OS thread whose hash keys derive from `seed`. Panics in `f` are returned
+/// as Err(message).
+pub fn on_fresh_thread<T: Send + 'static>(seed: u64, stack_mib: usize, f: impl FnOnce() -> T + Send + 'static) -> Result<T, String> {
+    spawn_fresh(seed, stack_mib, f)?.join()
+}
+
+/// S2: a parked caller thread. It owns its hash keys and its thread-local state (cedar's FFI
+/// caches); it executes exactly the jobs the simulator hands it, one at a time, and the
+/// simulator waits for each result, so exactly one thread is ever runnable.
+pub struct Caller<R: Send + 'static> {
+    tx: Option<std::sync::mpsc::Sender<Box<dyn FnOnce() -> R + Send>>>,
+    rx: std::sync::mpsc::Receiver<Result<R, String>>,
+    handle: Option<FreshHandle<()>>,
+}
+
+impl<R: Send + 'static> Caller<R> {
+    pub fn spawn(seed: u64, stack_mib: usize) -> Result<Self, String> {
+        let (tx, jrx) = std::sync::mpsc::channel::<Box<dyn FnOnce() -> R + Send>>();
+        let (rtx, rx) = std::sync::mpsc::channel::<Result<R, String>>();
+        let handle = spawn_fresh(seed, stack_mib, move || {
+            while let Ok(job) = jrx.recv() {
+                let r = std::panic::catch_unwind(std::panic::AssertUnwindSafe(job)).map_err(|p| panic_message(&p));
+                if rtx.send(r).is_err() {
+                    break;
+                }
+            }
+        })?;
+        Ok(Caller { tx: Some(tx), rx, handle: Some(handle) })
+    }
+    /// run one job on the parked thread and wait for it
+    pub fn call(&self, job: impl FnOnce() -> R + Send + 'static) -> Result<R, String> {
+        match &self.tx {
+            Some(tx) => {
+                if tx.send(Box::new(job)).is_err() {
+                    return Err("caller thread is gone".into());
+                }
+                self.rx.recv().unwrap_or_else(|_| Err("caller thread died".into()))
+            }
+            None => Err("caller thread already stopped".into()),
+        }
+    }
+}
+
+impl<R: Send + 'static> Drop for Caller<R> {
+    fn drop(&mut self) {
+        self.tx = None; // closes the job channel, the thread leaves its loop
+        if let Some(h) = self.handle.take() {
+            let _ = h.join();
+        }
+    }
 }
 
 pub fn panic_message(p: &Box<dyn std::any::Any + Send>) -> String {
